@@ -188,6 +188,8 @@ def run_unit(template_path, repo_root, workdir, rlimit=60, extra_args=None, muta
         e = {'message': msg, 'fn': None, 'labels': [], 'where': [], 'rendered': d.get('rendered', '')[:1500], 'aux': False}
         for s in ours:
             li = s['line_start']
+            if (s.get('label') or '').startswith('at the end of the function body') or (s.get('label') or '').startswith('at this exit'):
+                continue
             if 1 <= li <= len(gen.origin):
                 o = gen.origin[li - 1]
                 for lb in o.get('labels', []):
